@@ -4,8 +4,11 @@ CONSTANTS
   MaxGens = 4
   MaxClients = 3
   MaxFaults = 3
+  MaxStalls = 0
+  MaxAsk = 0
+  AskSelectsQuit = TRUE
   FixCallEntry = TRUE
   FixResetSnapshot = TRUE
   FixRemoveOwn = TRUE
-INVARIANTS ErrorsOnlyWhileDown NoDeadEntry NoOrphanClient NoStaleCall
+INVARIANTS ErrorsOnlyWhileDown NoDeadEntry NoOrphanClient NoStaleCall NoWedgedClient
 CHECK_DEADLOCK FALSE
